@@ -49,6 +49,9 @@ inductive Schema where
   | ref (name : List Char)
   | anyOf (alts : List Schema)
   | oneOf (alts : List Schema)
+  /-- `{"allOf": [{"$ref": r}…, {"type":"object","properties": props,"required": req}, {"required": xreq}]}`
+  (the inline object and the bare `required` part may be empty) -/
+  | allOf (refs : List (List Char)) (props : List (List Char × Schema)) (req xreq : List (List Char))
   deriving Inhabited
 
 abbrev Defs := List (List Char × Schema)
@@ -113,6 +116,17 @@ def validJ (re : Regex) : Nat → Defs → Schema → Json → Bool
       | none => false
     | .anyOf alts => alts.any (fun a => validJ re f defs a v)
     | .oneOf alts => countTrue (alts.map (fun a => validJ re f defs a v)) == 1
+    | .allOf refs props req xreq =>
+      match v with
+      | .obj kvs =>
+        refs.all (fun r => match defs.lookup r with
+          | some t => validJ re f defs t v
+          | none => false) &&
+        req.all (fun k => hasKey kvs k) && xreq.all (fun k => hasKey kvs k) &&
+        props.all (fun p => match kvs.lookup p.1 with
+          | some x => validJ re f defs p.2 x
+          | none => true)
+      | _ => false
 
 /-! ### The decidable region `InSubset` of the `_partial` theorems -/
 
@@ -158,6 +172,9 @@ def Schema.inSubset : Schema → Bool
   | .ref _ => true
   | .anyOf alts => Schema.allInSubset alts
   | .oneOf alts => Schema.allInSubset alts
+  | .allOf _ props req _ =>
+    Schema.propsInSubset props && namesNodup (props.map (·.1)) &&
+      req.all (fun k => (props.map (·.1)).contains k)
 def Schema.propsInSubset : List (List Char × Schema) → Bool
   | [] => true
   | p :: ps => p.2.inSubset && Schema.propsInSubset ps
@@ -207,15 +224,28 @@ def validJN (re : Regex) : Nat → Defs → Schema → Json → Bool
       | none => false
     | .anyOf alts => alts.any (fun a => validJN re f defs a v)
     | .oneOf alts => countTrue (alts.map (fun a => validJN re f defs a v)) == 1
+    | .allOf refs props req xreq =>
+      match v with
+      | .obj kvs =>
+        refs.all (fun r => match defs.lookup r with
+          | some t => validJN re f defs t v
+          | none => false) &&
+        req.all (fun k => hasKey kvs k) && xreq.all (fun k => hasKey kvs k) &&
+        props.all (fun p => match kvs.lookup p.1 with
+          | some x => (!(req.contains p.1 || xreq.contains p.1) && x.isNull) || validJN re f defs p.2 x
+          | none => true)
+      | _ => false
 
 mutual
-/-- no `oneOf` anywhere (a `Union` accepts when two alternatives match; `oneOf` does not) -/
+/-- no `oneOf` anywhere (a `Union` accepts when two alternatives match; `oneOf` does not); `allOf`
+is outside the converse theorems as well -/
 def Schema.oneOfFree : Schema → Bool
   | .array items _ _ => items.oneOfFree
   | .object props _ _ => Schema.propsOneOfFree props
   | .dict value => value.oneOfFree
   | .anyOf alts => Schema.allOneOfFree alts
   | .oneOf _ => false
+  | .allOf _ _ _ _ => false
   | _ => true
 def Schema.propsOneOfFree : List (List Char × Schema) → Bool
   | [] => true
